@@ -269,7 +269,7 @@ var c11Embeddings = []c11Embedding{
 func TestVerifC11(t *testing.T) {
 	r := vNewReport("C11")
 	defer r.Write(t)
-	r.Extra["rule"] = "20 documented untrusted paths: full spelling product of every segment in the bare embedding; proper prefixes, trusted siblings per segment, one-segment extensions, object filter in place of each named segment; canonical + adversarial spelling of every path in 23 embeddings (operators, parentheses, call arguments, index positions, 2 and 3 chains, sanitising calls nested both ways), pairs of different paths in the multi-chain embeddings; every path (3 spellings) next to 10 partner chains that leave the matcher in different states, both orders, 3 templates; script positions (run:, github-script script:) and non-script positions (env:, other with: input, if:, name:) through Linter.Lint. oracle = stateless reference matcher on segment lists. class = (family, number of reports expected); non-trivial = something must be reported"
+	r.Extra["rule"] = "20 documented untrusted paths: full spelling product of every segment in the bare embedding; proper prefixes, trusted siblings per segment, one-segment extensions, object filter in place of each named segment; array filter followed by an index at every later place of the chain; canonical + adversarial spelling of every path in 23 embeddings (operators, parentheses, call arguments, index positions, 2 and 3 chains, sanitising calls nested both ways), pairs of different paths in the multi-chain embeddings; every path (3 spellings) next to 10 partner chains that leave the matcher in different states, both orders, 3 templates; script positions (run:, github-script script:) and non-script positions (env:, other with: input, if:, name:) through Linter.Lint. oracle = stateless reference matcher on segment lists. class = (family, number of reports expected); non-trivial = something must be reported"
 	r.Extra["assumptions"] = []string{"a chain is a variable followed by accessors; chains interrupted by operators are not claimed (DESIGN section 7)", "a non-string index anywhere after an object filter (it selects an element of the filtered array) is not generated"}
 	if raw := vReplayInput(); raw != nil {
 		var rp struct {
@@ -380,6 +380,40 @@ func TestVerifC11(t *testing.T) {
 						}
 					}
 					c11CheckExpr(r, em.tmpl(texts), want, "embed:"+em.name)
+				}
+			}
+		}
+	}
+	// (2b) array filter followed by an index somewhere later in the same chain: commits.*.message[0]
+	// is the first commit's message (the index picks an element of the filtered array), i.e. the
+	// same documented path as commits[0].message
+	for _, leaf := range c11Leaves {
+		star := -1
+		for i, sgm := range leaf {
+			if sgm == "*" {
+				star = i
+			}
+		}
+		if star < 0 {
+			continue
+		}
+		for _, adv := range []bool{false, true} {
+			for at := star + 1; at <= len(leaf); at++ {
+				for _, ix := range []string{"0", "matrix.i"} {
+					if !mine() {
+						continue
+					}
+					base := c11Canonical(leaf, false)
+					if adv {
+						base = c11Canonical(leaf, true)
+						base.accs[star] = c11Acc{'s', ""} // keep the filter (the adversarial form turns * into an index)
+					}
+					c := &c11Chain{root: base.root}
+					c.accs = append(c.accs, base.accs[:at]...)
+					c.accs = append(c.accs, c11Acc{'n', ix})
+					c.accs = append(c.accs, base.accs[at:]...)
+					want := []string{"github." + strings.Join(leaf, ".")}
+					c11CheckExpr(r, c.text(), [][]string{want}, "array-filter-then-index")
 				}
 			}
 		}
